@@ -389,6 +389,8 @@ class TitanClientProtocol(asyncio.Protocol):
             if not (20 <= self.status < 30):
                 if self.transport:
                     self.transport.close()
+                # Whatever followed the header in this read is not a body
+                return
 
         # Check if we've received too much data
         if len(self.buffer) > MAX_RESPONSE_BODY_SIZE:
